@@ -18,6 +18,8 @@ import Mahotas.Proofs.C08Fast
 import Mahotas.Proofs.C08Rank
 import Mahotas.Proofs.C08ViewsA
 import Mahotas.Proofs.C08ViewsB
+import Mahotas.Proofs.C08ViewsCooc
+import Mahotas.Properties.C19
 import Mahotas.Properties.C17
 import Mahotas.Properties.C01
 import Mahotas.Properties.C04
@@ -1131,6 +1133,48 @@ example : logical memJ vJ = [1, 1, 1, 0, 1, 1, 0, 0, 1, 0, 0, 0, 0, 0, 0, 0] ∧
   decide +kernel
 end Mahotas.C08.Example4
 
+
+/-- **cooccurence over views = `C19.coocModel`.** `cooccurence<T>` (image through its iterator, the one-hot direction array
+as a compressed `ExtendIgnore` filter iterator built from the image's strides, `++res.at(val, val2)`) on ANY views of the
+image and of the direction array yields the matrix of the owner's model on the logical image, with the direction
+`d = position of the first non-zero entry of Bc − centre` — the definition `c19 kind=cooc` runs. -/
+theorem C08_coocView_eq_C19 (mm : Nat) (mA : Int → Int) (vA : View) (mB : Int → Int) (vB : View)
+    (h : FilterArgs vA vB true) (kk0 : Nat) (rest : List Nat)
+    (hfp : (List.range (shapeSize vB.shape)).filter (fun kk => (logical mB vB).getD kk 0 != 0) = kk0 :: rest) :
+    coocView mm mA vA mB vB =
+      C19.coocModel mm (toImg mA vA) (subPos (unravelI vB.shape kk0) (centreOf vB.shape)) :=
+  coocView_eq_C19 mm mA vA mB vB h kk0 rest hfp
+
+/-- **cooccurence is layout-free**: two (image, direction array) pairs of views with the same logical content give the same
+matrix. -/
+theorem C08_cooccurence_layout_free (mm : Nat) (mA₁ mA₂ mB₁ mB₂ : Int → Int) (vA₁ vA₂ vB₁ vB₂ : View)
+    (h₁ : FilterArgs vA₁ vB₁ true) (h₂ : FilterArgs vA₂ vB₂ true)
+    (hA : SameLogical mA₁ vA₁ mA₂ vA₂) (hB : SameLogical mB₁ vB₁ mB₂ vB₂) (kk0 : Nat) (rest : List Nat)
+    (hfp : (List.range (shapeSize vB₁.shape)).filter (fun kk => (logical mB₁ vB₁).getD kk 0 != 0) = kk0 :: rest) :
+    coocView mm mA₁ vA₁ mB₁ vB₁ = coocView mm mA₂ vA₂ mB₂ vB₂ := by
+  obtain ⟨hl, hs⟩ := logical_eq_of_toImg _ _ _ _ hB.toImg_eq
+  rw [coocView_eq_C19 mm mA₁ vA₁ mB₁ vB₁ h₁ kk0 rest hfp,
+    coocView_eq_C19 mm mA₂ vA₂ mB₂ vB₂ h₂ kk0 rest (by rw [← hl, ← hs]; exact hfp), hA.toImg_eq, hs]
+
+/-- **cooccurence is correct for any memory layout** (composition with `C19_cooc_counts`): with all values in `[0, mm)`,
+cell `(a, b)` of the matrix computed from ANY views is the number of positions `p` with `p` and `p + d` inside the image,
+`f p = a` and `f (p + d) = b`. -/
+theorem C08_cooccurence_view_correct (mm : Nat) (mA : Int → Int) (vA : View) (mB : Int → Int) (vB : View)
+    (h : FilterArgs vA vB true) (kk0 : Nat) (rest : List Nat)
+    (hfp : (List.range (shapeSize vB.shape)).filter (fun kk => (logical mB vB).getD kk 0 != 0) = kk0 :: rest)
+    (hv : ∀ p, 0 ≤ (toImg mA vA).getD p 0 ∧ (toImg mA vA).getD p 0 < (mm : Int))
+    (a b : Nat) (ha : a < mm) (hb : b < mm) :
+    (coocView mm mA vA mB vB).getD (a * mm + b) 0 =
+      C19.coocCount vA.shape (fun p => (toImg mA vA).getD p 0)
+        (subPos (unravelI vB.shape kk0) (centreOf vB.shape)) a b := by
+  rw [coocView_eq_C19 mm mA vA mB vB h kk0 rest hfp]
+  exact ((C19_cooc_counts mm (toImg mA vA) _ hv).2.2 a b ha hb).1
+
+example : (coocView 6 Mahotas.C08.Example4.memR Mahotas.C08.Example4.vRF Mahotas.C08.Example4.memX Mahotas.C08.Example4.vX).getD (1 * 6 + 5) 0 = 1 ∧
+    (coocView 6 Mahotas.C08.Example4.memR Mahotas.C08.Example4.vRF Mahotas.C08.Example4.memX Mahotas.C08.Example4.vX).getD (1 * 6 + 1) 0 = 3 ∧
+    coocView 6 Mahotas.C08.Example4.memR2 Mahotas.C08.Example4.vRN Mahotas.C08.Example4.memX Mahotas.C08.Example4.vX =
+      coocView 6 Mahotas.C08.Example4.memR Mahotas.C08.Example4.vRF Mahotas.C08.Example4.memX Mahotas.C08.Example4.vX := by
+  decide +kernel
 
 /-- **`iterate_both` reads the position from the array iterator** (closes the gap left in rounds 2/3, where the filter
 model carried its own copy of the odometer). The loop as the C++ runs it — `iterate_both` takes `index_rev(d)` and
